@@ -39,13 +39,13 @@ pub fn check_cfg(id: &str, tier: &str) -> Option<CheckCfg> {
     let ms = if thorough { 250 } else { 60 };
     use Backend::*;
     Some(match id {
-        "C06" => CheckCfg { id: id.into(), runs: scale(6000, 600_000), max_stmts: ms, workloads: vec!["gen", "corpus", "abi", "pipe", "ops"], backends: vec![X86], check_heap: false, hostile: true },
-        "C07" => CheckCfg { id: id.into(), runs: scale(6000, 600_000), max_stmts: ms, workloads: vec!["gen", "corpus", "abi", "pipe", "ops"], backends: vec![A64], check_heap: false, hostile: true },
-        "C08" => CheckCfg { id: id.into(), runs: scale(5000, 500_000), max_stmts: ms, workloads: vec!["gen-rv", "corpus", "pipe-rv", "ops-rv"], backends: vec![Rv, X86, A64], check_heap: false, hostile: true },
-        "C09" => CheckCfg { id: id.into(), runs: scale(2500, 400_000), max_stmts: ms, workloads: vec!["gen", "gen-rv", "loop", "loop2", "corpus", "pipe"], backends: vec![X86, A64, Rv], check_heap: true, hostile: false },
-        "C10" => CheckCfg { id: id.into(), runs: scale(2000, 200_000), max_stmts: ms, workloads: vec!["loop2", "loop", "gen"], backends: vec![X86, A64, Rv], check_heap: true, hostile: false },
-        "C11" => CheckCfg { id: id.into(), runs: scale(12000, 1_500_000), max_stmts: ms, workloads: vec!["subst"], backends: vec![X86, A64, Rv], check_heap: true, hostile: false },
-        "C13" => CheckCfg { id: id.into(), runs: scale(6000, 600_000), max_stmts: ms, workloads: vec!["abi", "gen", "pipe"], backends: vec![X86, A64], check_heap: false, hostile: true },
+        "C06" => CheckCfg { id: id.into(), runs: scale(30_000, 600_000), max_stmts: ms, workloads: vec!["gen", "corpus", "abi", "pipe", "ops"], backends: vec![X86], check_heap: false, hostile: true },
+        "C07" => CheckCfg { id: id.into(), runs: scale(30_000, 600_000), max_stmts: ms, workloads: vec!["gen", "corpus", "abi", "pipe", "ops"], backends: vec![A64], check_heap: false, hostile: true },
+        "C08" => CheckCfg { id: id.into(), runs: scale(25_000, 500_000), max_stmts: ms, workloads: vec!["gen-rv", "corpus", "pipe-rv", "ops-rv"], backends: vec![Rv, X86, A64], check_heap: false, hostile: true },
+        "C09" => CheckCfg { id: id.into(), runs: scale(10_000, 400_000), max_stmts: ms, workloads: vec!["gen", "gen-rv", "loop", "loop2", "corpus", "pipe"], backends: vec![X86, A64, Rv], check_heap: true, hostile: false },
+        "C10" => CheckCfg { id: id.into(), runs: scale(6000, 200_000), max_stmts: ms, workloads: vec!["loop2", "loop", "gen"], backends: vec![X86, A64, Rv], check_heap: true, hostile: false },
+        "C11" => CheckCfg { id: id.into(), runs: scale(48_000, 1_500_000), max_stmts: ms, workloads: vec!["subst"], backends: vec![X86, A64, Rv], check_heap: true, hostile: false },
+        "C13" => CheckCfg { id: id.into(), runs: scale(24_000, 600_000), max_stmts: ms, workloads: vec!["abi", "gen", "pipe"], backends: vec![X86, A64], check_heap: false, hostile: true },
         _ => return None,
     })
 }
